@@ -1281,8 +1281,8 @@ theorem appendWithIndex_spec (v : Var) {base : Arr} (hb : base.WF) (i : Int) (s 
 theorem abs_of_indexed {v : Var} (hk : v.kind = .indexed) : v.abs = ⟨.indexed, v.arr.abs⟩ := by
   simp [Var.abs, Var.absMap, hk]
 
-/-- Every operation preserves the invariant and never panics; outside the recorded divergence
-    (`opOK`: `unset a` on a variable that is not `IsSet()`) it is the bash operation on the
+/-- Every operation preserves the invariant and never panics; under `opOK`
+    (`unset a` meets a variable that `IsSet()`, which `runOK_always` shows is always the case) it is the bash operation on the
     abstract variable. -/
 theorem applyOp_spec (v : Var) (op : Op) (h : v.WF) :
     ∃ v', applyOp v op = .ok v' ∧ v'.WF ∧ (opOK v op = true → v'.abs = specOp v.abs op) := by
@@ -1421,8 +1421,8 @@ theorem runOps_spec (ops : List Op) : ∀ (v : Var), v.WF →
     rw [← ab1 ok.1]
     exact ab2 ok.2
 
-/-- Apart from `mapfile`, every operation leaves a scalar or array `IsSet()`. -/
-theorem applyOp_setOK {v v' : Var} {op : Op} (hs : v.SetOK) (hm : isMapfile op = false)
+/-- Every operation leaves a scalar or array `IsSet()`. -/
+theorem applyOp_setOK {v v' : Var} {op : Op} (hs : v.SetOK)
     (e : applyOp v op = .ok v') : v'.SetOK := by
   have keep : ∀ {base : Arr} {i : Int} {s : Str} {w : Var},
       setWithIndex v base i s = .ok w → w.SetOK := by
@@ -1494,7 +1494,7 @@ theorem applyOp_setOK {v v' : Var} {op : Op} (hs : v.SetOK) (hm : isMapfile op =
     · cases e; intro c; exact (c rfl).elim
     · cases e; exact hs
   | readArr vs => simp only [applyOp] at e; cases e; intro _; rfl
-  | mapfile vs => simp [isMapfile] at hm
+  | mapfile vs => simp only [applyOp] at e; cases e; intro _; rfl
 
 theorem opOK_of_setOK {v : Var} (hs : v.SetOK) (op : Op) : opOK v op = true := by
   cases op <;> simp only [opOK]
@@ -1503,15 +1503,13 @@ theorem opOK_of_setOK {v : Var} (hs : v.SetOK) (op : Op) : opOK v op = true := b
   | str => simp [hs (by rw [hk]; intro c; cases c)]
   | indexed => simp [hs (by rw [hk]; intro c; cases c)]
 
-theorem runOK_of_no_mapfile (ops : List Op) (hm : ops.all (fun o => !isMapfile o) = true) :
-    ∀ v, v.WF → v.SetOK → runOK v ops = true := by
+theorem runOK_always (ops : List Op) : ∀ v, v.WF → v.SetOK → runOK v ops = true := by
   induction ops with
   | nil => intro v _ _; rfl
   | cons op ops ih =>
     intro v h hs
-    simp only [List.all_cons, Bool.and_eq_true, Bool.not_eq_true'] at hm
     obtain ⟨v', e, w, _⟩ := applyOp_spec v op h
     simp only [runOK, e, Bool.and_eq_true]
-    exact ⟨opOK_of_setOK hs op, ih (by simpa using hm.2) v' w (applyOp_setOK hs hm.1 e)⟩
+    exact ⟨opOK_of_setOK hs op, ih v' w (applyOp_setOK hs e)⟩
 
 end ShVerif.C33
